@@ -5,12 +5,16 @@ and the real ``ReplayHandler`` -> ``HttpLayer`` stack) runs inside the determini
 (lib/simloop.py).  Fake origin servers sit behind the patched ``asyncio.open_connection``; every flow is replayed to
 its own port, so the server side knows which flow a connection attempt belongs to the moment it is made.  Servers
 refuse, answer after a generated virtual delay, close early, reset, answer partially or never answer.  An observer
-addon delays ``request``/``response``/``error`` hooks by generated durations.  The scenario submits lists of
+addon delays the flow hooks (``requestheaders``/``request``/``response``/``error``) and the replay handler's
+connection hooks (``server_connect``/``server_connected``/``server_disconnected``, i.e. set-up and tear-down) by
+generated virtual durations.  The scenario submits lists of
 replayable and unreplayable flows and issues ``replay.client.stop`` at generated virtual instants.
 
 Oracle:
   * sequential: when a connection attempt for a replay starts, every earlier replay connection is closed/failed and
     every earlier replayed flow has a response or an error; attempts come in queue order (model: FIFO list);
+    at the first hook of a replay and at its connection attempt no connection handler task of an earlier replay is
+    still running and no earlier replayed flow is still live (at most one replay in flight);
   * every replayed flow ends with a response or an error (unless its server never answers: then nothing later may
     be replayed either);
   * unreplayable flows (live, intercepted, missing content, TCP/UDP/DNS, WebSocket) are not queued, keep their
@@ -32,7 +36,7 @@ TECHNIQUE = "generated replay scenarios on a deterministic asyncio simulator vs.
 RULE = ("scenarios decoded from a generated 160-byte tape: <=7 flows of kinds fresh/with-response/user-modified/"
         "live/intercepted/no-content/tcp/udp/dns/websocket, <=6 operations (start_replay of a flow subset | stop_replay) "
         "at generated virtual delays, per connection attempt: refuse | answer after delay | close | reset | partial | "
-        "never, hook delays, timer overshoots, eager/lazy task start.  non-trivial = >=2 replayable flows queued with "
+        "never, delays of flow hooks and of server_connect/connected/disconnected (tear-down) hooks, timer overshoots, eager/lazy task start.  non-trivial = >=2 replayable flows queued with "
         "a slow/failing/never-answering first server, or a stop with a non-empty queue; distinct by (flow kinds, ops, "
         "server modes)")
 ASSUMPTIONS = ["client_replay_concurrency = 1; plain-http flows (no TLS towards the fake origin)",
@@ -57,7 +61,7 @@ def decode(data):
         m = t.byte()
         servers.append({"connect": "err" if m % 8 == 7 else "ok", "cdelay": (m >> 3) % 8, "mode": t.pick(MODES),
                         "rdelay": t.pick([0, 1, 3, 40, 400]), "status": t.pick([200, 204, 404, 500]), "blen": t.below(4)})
-    hooks = [t.pick([0, 0, 0, 1, 5, 100]) for _ in range(t.below(10))]
+    hooks = [t.pick([0, 0, 0, 1, 5, 100]) for _ in range(t.below(25))]
     ops = []
     for _ in range(1 + t.below(6)):
         m = t.byte()
@@ -107,14 +111,31 @@ class Observer:
 
     def __init__(self, sc, loop, log):
         self.sc, self.loop, self.log, self.k = sc, loop, log, 0
+        self.on_first = None  # callable(flow index): first hook of a replay
 
-    async def _h(self, name, flow):
+    async def _h(self, name, flow=None, port=None):
         k, self.k = self.k, self.k + 1
         hooks = self.sc["hooks"]
-        self.log.append((self.loop.time(), "hook", name, flow.request.port - BASE_PORT))
+        i = (flow.request.port if flow is not None else port) - BASE_PORT
+        self.log.append((self.loop.time(), "hook", name, i))
+        if name == "requestheaders" and self.on_first is not None:
+            self.on_first(i)
         d = hooks[k] if k < len(hooks) else 0
         if d:
             await asyncio.sleep(d * U)
+
+    async def requestheaders(self, flow):
+        await self._h("requestheaders", flow)
+
+    # connection hooks of the replay handler: set-up and, above all, tear-down take (virtual) time too
+    async def server_connect(self, data):
+        await self._h("server_connect", port=data.server.address[1])
+
+    async def server_connected(self, data):
+        await self._h("server_connected", port=data.server.address[1])
+
+    async def server_disconnected(self, data):
+        await self._h("server_disconnected", port=data.server.address[1])
 
     async def request(self, flow):
         await self._h("request", flow)
@@ -148,12 +169,32 @@ def run_scenario(sc, ctx):
         replayed = []  # flow indices in the order their connection attempt was made
         pre = {}  # flow index -> state before the start_replay that queued it
         stopped = set()  # flow indices cleared by a stop and not queued again
+        started = []  # flow indices whose replay has shown its first hook
         cp = ClientPlayback()
+
+        def previous_still_in_flight(i, where):
+            """at most one replay in flight: when replay `i` shows its first sign of life the previous one is over"""
+            cur = asyncio.current_task()
+            busy = [t.get_name() for t in loop.tasks if not t.done() and t is not cur
+                    and t.get_name().startswith("server connection handler")]
+            if busy:
+                fails.append(("overlap:previous-connection-handler-pending:" + where,
+                              "replay of flow %d starts while %r of the previous replay are still running" % (i, busy)))
+            for j in started:
+                if j != i and j not in model and j not in stopped and flows[j].live:
+                    fails.append(("overlap:previous-flow-still-live:" + where,
+                                  "replay of flow %d starts while flow %d is still live" % (i, j)))
+
+        def on_first(i):
+            previous_still_in_flight(i, "at-first-hook")
+            if i not in started:
+                started.append(i)
 
         def on_call(call):
             port = call["address"][1]
             i = port - BASE_PORT
             k = call["i"]
+            previous_still_in_flight(i, "at-connect")
             info["modes"].append(sc["servers"][k]["mode"] if k < len(sc["servers"]) else "respond")
             # sequential: nothing else in flight
             for c in net.calls[:-1]:
@@ -217,7 +258,9 @@ def run_scenario(sc, ctx):
 
         net.on_call = on_call
         net.on_connect = on_connect
-        with taddons.context(cp, Proxyserver(), Observer(sc, loop, log)) as tctx:
+        obs = Observer(sc, loop, log)
+        obs.on_first = on_first
+        with taddons.context(cp, Proxyserver(), obs) as tctx:
             try:
                 cp.running()
                 for delay, op, idxs in sc["ops"]:
